@@ -30,6 +30,9 @@ RULE = ("per codec configuration and base buffer: (0 deviations) the valid "
         "45 values beyond), every header word "
         "x {0,1,n-1,n,n+1,2^24-1,2^31,2^32-1} and every bits value, constant "
         "fills (0x00, 0x01, 0xff) of every length up to the valid one + 8, "
+        "JPEG: well-formed images of 25 other container/pixel-mode pairs "
+        "(PNG, TIFF, GIF, BMP, PPM, JPEG in L, 1, P, I;16, I, F, LA, RGB, "
+        "RGBA, CMYK) x {same, swapped, one-row} dimensions; "
         "JPEG frame-header height x width from {0,1,2,255,256,13378,20000,"
         "65535} and component counts; (2 "
         "deviations, thorough) all pairs of header-word edits and of "
@@ -185,7 +188,52 @@ def apply_edit(buf, edit):
         return bytes(b)
     if k == "string":
         return bytes.fromhex(edit["hex"])
+    if k == "image":
+        return foreign_image(buf, edit)
     raise ValueError(k)
+
+
+FOREIGN = [("PNG", "L"), ("PNG", "I;16"), ("PNG", "1"), ("PNG", "RGB"),
+           ("PNG", "RGBA"), ("PNG", "P"), ("PNG", "LA"), ("PNG", "I"),
+           ("TIFF", "L"), ("TIFF", "F"), ("TIFF", "I"), ("TIFF", "I;16"),
+           ("TIFF", "RGB"), ("TIFF", "1"), ("TIFF", "CMYK"), ("GIF", "P"),
+           ("GIF", "L"), ("BMP", "L"), ("BMP", "RGB"), ("BMP", "1"),
+           ("PPM", "L"), ("PPM", "RGB"), ("JPEG", "L"), ("JPEG", "RGB"),
+           ("JPEG", "CMYK")]
+
+
+def foreign_image(base_buf, edit):
+    """a well-formed image file in another container / pixel mode with the
+    same pixel dimensions as the base JPEG (or swapped / one row)"""
+    import PIL.Image
+    w, h = PIL.Image.open(io.BytesIO(base_buf)).size
+    if edit["dims"] == "swapped":
+        w, h = h, w
+    elif edit["dims"] == "row":
+        w, h = w * h, 1
+    mode = edit["mode"]
+    ramp = (np.arange(w * h) * 29 % 251).reshape(h, w)
+    if mode in ("L", "P"):
+        img = PIL.Image.fromarray(ramp.astype("uint8"))
+        if mode == "P":
+            img = img.convert("P")
+    elif mode == "1":
+        img = PIL.Image.fromarray((ramp % 2 * 255).astype("uint8")
+                                  ).convert("1")
+    elif mode == "I;16":
+        img = PIL.Image.fromarray((ramp * 257).astype("uint16"))
+    elif mode == "I":
+        img = PIL.Image.fromarray((ramp * 70001).astype("int32"))
+    elif mode == "F":
+        img = PIL.Image.fromarray((ramp * 0.37).astype("float32"))
+    else:
+        nb = {"RGB": 3, "RGBA": 4, "LA": 2, "CMYK": 4}[mode]
+        a = np.stack([(ramp + 40 * k) % 256 for k in range(nb)],
+                     axis=-1).astype("uint8")
+        img = PIL.Image.fromarray(a, mode)
+    b = io.BytesIO()
+    img.save(b, format=edit["format"])
+    return b.getvalue()
 
 
 def judge(col, case, enc, buf, base_buf, exp):
@@ -327,6 +375,11 @@ def edits_for(case, buf, tier):
         for n in range(0, len(buf) + 9):
             yield {"kind": "string", "hex": bytes([fill] * n).hex()}
     if codec == "jpeg":
+        # well-formed image files of other containers and pixel modes
+        for fmt, mode in FOREIGN:
+            for dims in ("same", "swapped", "row"):
+                yield {"kind": "image", "format": fmt, "mode": mode,
+                       "dims": dims}
         # targeted edits of the frame header (SOF0/SOF2): height and width
         i = 2
         sof = None
